@@ -81,7 +81,7 @@ func (env *Zlisp) SourceExpressions(expressions []Sexp) error {
 }
 
 func (env *Zlisp) SourceStream(stream io.RuneScanner) error {
-	env.parser.ResetAddNewInput(stream)
+	env.parser.ResetAddNewInput(WholeText(stream))
 	expressions, err := env.parser.ParseTokens()
 	if err != nil {
 		return errors.New(fmt.Sprintf(
